@@ -315,6 +315,8 @@ def judge(ctx, scns, trace_path, results_path, expected, label):
             fired = sorted(a["k"] for a in r["acts"])
             # (what follows presupposes the consumption clauses: a run already rejected is not judged further)
             rejected = "%s/%d" % (scn, r["run"]) in seen_runs or r["consumed"] != r["n"]
+            # (a run whose exchange refused an order is reported through its anomaly and not judged further either)
+            rejected = rejected or any(a.startswith("order-refused") for a in r.get("anomalies", []))
             if r["mode"] == "gated" and not rejected:
                 # scenario sanity (tool level): the gate only opens when everything was answered
                 if r["orders_fired"] != len(fired) or r["trades_seen"] != len(fired) or r["balances_seen"] != len(fired):
